@@ -55,8 +55,8 @@ MAP = [
 ]
 
 CPP_OPS = [
-    (r"(?<![<>=!\-+])<=(?!=)", "<"), (r"(?<![<>=!\-+])>=(?!=)", ">"),
-    (r"(?<![<>=\-])<(?![<=])", "<="), (r"(?<![<>=\-])>(?![>=])", ">="),
+    # comparisons are written with surrounding blanks in this code base; template brackets are not
+    (r" <= ", " < "), (r" >= ", " > "), (r" < ", " <= "), (r" > ", " >= "), (r" < ", " > "), (r" > ", " < "),
     (r"==", "!="), (r"!=", "=="),
     (r"&&", "||"), (r"\|\|", "&&"),
     (r"(?<![+\w\)])\+\+", "--"), (r"\+ 1\b", "+ 2"), (r"- 1\b", "- 2"), (r"\+ 1\b", ""), (r"- 1\b", ""),
